@@ -7,7 +7,9 @@ import (
 	"runtime"
 	"sort"
 	"strings"
+	"time"
 
+	"github.com/at-wat/mqtt-go/internal/verif/env"
 	sp "github.com/at-wat/mqtt-go/internal/verif/selfprog"
 	spn "github.com/at-wat/mqtt-go/internal/verif/selfprognative"
 	vctx "github.com/at-wat/mqtt-go/internal/verif/shim/context"
@@ -32,6 +34,7 @@ type selfCase struct {
 }
 
 func runSelf(c *Ctx) {
+	defer selfCacheSoundness(c)
 	selfConformance(c)
 	cases := selfCases()
 	for i := range cases {
@@ -463,4 +466,120 @@ func keysOf(m map[string]bool) []string {
 	}
 	sort.Strings(ks)
 	return ks
+}
+
+
+// selfCacheSoundness: the happens-before state cache must not change what is found.  Real library
+// scenarios of several harness families are explored twice, with and without the cache; the sets of
+// distinct final observations (per-connection wire traces) and of failure keys must be identical.
+// (This check found harness reads of shared state that were not part of the fingerprint.)
+func selfCacheSoundness(c *Ctx) {
+	if c.Only != "" {
+		return
+	}
+	type mk func() (*vrt.Scenario, func() (uint64, string))
+	rcScn := func(name string, reqs []rcReq, bound vrt.Budget, fs env.FaultSet, extra func(*rcCfg)) mk {
+		return func() (*vrt.Scenario, func() (uint64, string)) {
+			var r *rcRun
+			s := &vrt.Scenario{Name: "SELF/cache/" + name, Bound: bound, Cfg: vrt.Config{Horizon: int64(600e9)},
+				Body: func() {
+					cfg := &rcCfg{Reqs: reqs, Faults: fs, KeepSession: true}
+					if extra != nil {
+						extra(cfg)
+					}
+					rcExecuteInto(cfg, &r)
+				}}
+			return s, func() (uint64, string) {
+				return r.net.CanonHash() ^ vrt.HashString(r.broker.SubsString()+fmt.Sprint(r.handledBy)), fmt.Sprint(r.broker.FaultLog) + "\n  " + strings.Join(r.net.TraceStrings(), "\n  ")
+			}
+		}
+	}
+	netScn := func(name string, bound vrt.Budget, cfg vrt.Config, delay bool, body func(out **env.Net) func()) mk {
+		return func() (*vrt.Scenario, func() (uint64, string)) {
+			var net *env.Net
+			s := &vrt.Scenario{Name: "SELF/cache/" + name, Bound: bound, Cfg: cfg, DelayBound: delay, Body: body(&net)}
+			return s, func() (uint64, string) { return net.CanonHash(), strings.Join(net.TraceStrings(), "\n  ") }
+		}
+	}
+	cut := env.FaultSet{LostClose: true, AckLost: true, WriteErr: true}
+	cl := env.FaultSet{LostClose: true, AckLost: true}
+	list := []mk{
+		rcScn("rc/p2.F2", []rcReq{{Kind: "p2", Tag: "m1", Phase: 'S'}}, vrt.Budget{F: 2}, cl, nil),
+		rcScn("rc/p1.F1.P1", []rcReq{{Kind: "p1", Tag: "m1", Phase: 'N'}}, vrt.Budget{F: 1, P: 1, Total: 2}, env.FaultSet{AckLost: true, OnlyTypes: map[byte]bool{env.PUBLISH: true}}, nil),
+		rcScn("rc/p1@B+p2@H.F1", []rcReq{{Kind: "p1", Tag: "m1", Phase: 'B'}, {Kind: "p2", Tag: "m2", Phase: 'H'}}, vrt.Budget{F: 1}, cut, nil),
+		rcScn("rc/p1@S+sub@O.F1", []rcReq{{Kind: "p1", Tag: "m1", Phase: 'S'}, {Kind: "sub", Subs: []string{"a:1"}, Phase: 'O'}}, vrt.Budget{F: 1}, cl, nil),
+		rcScn("rc/sub+unsub@N.F1.nosession", []rcReq{{Kind: "sub", Subs: []string{"a:1"}, Phase: 'N'}, {Kind: "unsub", Subs: []string{"a"}, Phase: 'N'}}, vrt.Budget{F: 1}, cl, func(c *rcCfg) { c.KeepSession = false }),
+		rcScn("rc/handle@H+p1.F1.push", []rcReq{{Kind: "p1", Tag: "m1", Phase: 'S'}, {Kind: "handle", Tag: "h1", Phase: 'H'}}, vrt.Budget{F: 1}, env.FaultSet{LostClose: true, OnlyTypes: map[byte]bool{env.PUBLISH: true}}, func(c *rcCfg) { c.PushAfterAck = []string{"in/a:i0:0", "in/b:i1:1"} }),
+		netScn("c07/p1+sub.foreign1", vrt.Budget{P: 1}, vrt.Config{}, false, func(out **env.Net) func() {
+			return c07Body(c07Cfg{kinds: []string{"p1", "sub1"}, foreign: 1, bound: vrt.Budget{P: 1}}, out)
+		}),
+		netScn("c11/p2.1.cancel.racing", vrt.Budget{P: 1, S: 1}, vrt.Config{Horizon: int64(60e9)}, false, func(out **env.Net) func() {
+			return c11Body(c11Cfg{calls: []c11Call{{"p2", 1}}, cause: "cancel", concurrent: true}, out)
+		}),
+		netScn("c09/stop.disconnect.delaybound", vrt.Budget{P: 1, D: 1, Total: 1}, vrt.Config{Horizon: int64(200e9)}, true, func(out **env.Net) func() {
+			return func() {
+				at := []time.Duration{500 * time.Millisecond, time.Second, 1500 * time.Millisecond}[vrt.Choose(vrt.KFree, 3, "instant")]
+				c09Body([]string{"close-before-connack"}, time.Second, 4*time.Second, c09Stop{kind: "disconnect", at: at}, out)()
+			}
+		}),
+	}
+	for i, m := range list {
+		if !c.Mine(int64(2000 + i)) {
+			continue
+		}
+		var sets [2]map[uint64]bool
+		var execs [2]int64
+		var name string
+		example := map[uint64]string{}
+		for k, nocache := range []bool{false, true} {
+			sets[k] = map[uint64]bool{}
+			s, obs := m()
+			name = s.Name
+			s.NoCache = nocache
+			s.Observe = func() uint64 {
+				h, ex := obs()
+				sets[k][h] = true
+				if _, ok := example[h]; !ok && len(example) < 400 {
+					example[h] = ex
+				}
+				return h
+			}
+			ex := &vrt.Explorer{Sc: s, Deadline: c.Deadline}
+			ex.Run()
+			execs[k] = ex.Stats.Execs
+			c.Res.Scenarios++
+			c.Res.Execs += ex.Stats.Execs
+			c.Res.States += ex.Stats.States
+			c.Res.Transitions += ex.Stats.Transitions
+			if e := ex.EngineError(); e != "" {
+				c.Res.EngineError = name + ": " + e
+			}
+			if !ex.Stats.Complete {
+				c.Note("cache soundness %s: not completed within the budget", name)
+				sets[k] = nil
+			}
+		}
+		if sets[0] == nil || sets[1] == nil {
+			continue
+		}
+		missing, extra := 0, 0
+		firstMissing := ""
+		for h := range sets[1] {
+			if !sets[0][h] {
+				missing++
+				if firstMissing == "" || len(example[h]) < len(firstMissing) {
+					firstMissing = example[h]
+				}
+			}
+		}
+		for h := range sets[0] {
+			if !sets[1][h] {
+				extra++
+			}
+		}
+		if missing > 0 || extra > 0 {
+			c.EnumFail("cache", name+"/outcome-sets-differ", fmt.Sprintf("with cache %d outcomes (%d executions), without %d outcomes (%d executions): %d missed by the cached search, %d only in the cached search; e.g. missed:\n%s", len(sets[0]), execs[0], len(sets[1]), execs[1], missing, extra, firstMissing), nil)
+		}
+		c.Sample(map[string]any{"cache_soundness": name, "outcomes": len(sets[0]), "executions_with_cache": execs[0], "executions_without_cache": execs[1]})
+	}
 }
